@@ -1112,8 +1112,12 @@ impl<'a, I, A> Strategies<'a, I, A> {
                 infos.iter().map(|info| info.num_actions()),
             ) {
                 let total: f64 = strat.iter().filter(|p| p > &&thresh).sum();
-                for p in strat.iter_mut() {
-                    *p = if *p > thresh { *p / total } else { 0.0 }
+                // NOTE if no action is above the threshold there's nothing sensible to keep, so
+                // leave the infoset alone instead of zeroing it
+                if total > 0.0 {
+                    for p in strat.iter_mut() {
+                        *p = if *p > thresh { *p / total } else { 0.0 }
+                    }
                 }
             }
         }
